@@ -124,6 +124,8 @@ class C15Machine(Machine):
         exp['extra_sheet'] = rng.chance(0.3)
         plot = rng.chance(0.12 if small else 0.25)
         return {'arm': 'run', 'exp': exp, 'plot': plot, 'hist': rng.chance(0.5), 'explicit_out': rng.chance(0.5),
+                'in_name': rng.choice(['experiment.xlsx', 'experiment.xlsx', 'plate.1.xlsx', 'my data v2.0.xlsx', 'a.b.c.xlsx', 'x.xlsx']),
+                'preexisting_dirs': rng.chance(0.4), 'rerun': rng.chance(0.3),
                 'subdir': rng.chance(0.3), 'seed': rng.randint(0, 2 ** 31 - 1), 'dpi': rng.choice([20, 30, 60]),
                 'clock': rng.randint(946684800, 2082758399)}
 
@@ -297,8 +299,12 @@ class C15Machine(Machine):
                     os.makedirs(os.path.dirname(p), exist_ok=True)
                     with open(p, 'wb') as f:
                         f.write(expgen.file_bytes(desc))
-                in_path = os.path.join(wdir, 'experiment.xlsx')
+                in_path = os.path.join(wdir, case.get('in_name', 'experiment.xlsx'))
                 tables_in = write_input_workbook(in_path, exp)
+                if case.get('preexisting_dirs'):
+                    # as left behind by an earlier run of the same workbook
+                    os.makedirs(os.path.join(wdir, 'plot_beads'), exist_ok=True)
+                    os.makedirs(os.path.join(wdir, 'plot_samples'), exist_ok=True)
                 out_path = os.path.join(wdir, 'results', 'out.xlsx') if case.get('explicit_out') else None
                 if out_path:
                     os.makedirs(os.path.dirname(out_path), exist_ok=True)
@@ -337,6 +343,12 @@ class C15Machine(Machine):
                     F.plot.savefig_dpi = case.get('dpi', 30)
                     try:
                         X.run(input_path=in_path, output_path=out_path, verbose=False, plot=case['plot'], hist_sheet=case['hist'])
+                        if case.get('rerun'):
+                            # history: the same workbook processed a second time into the same place
+                            seams.seed_global_rng(case['seed'])
+                            X.run(input_path=in_path, output_path=out_path, verbose=False, plot=case['plot'],
+                                  hist_sheet=case['hist'])
+                            out['probes']['second_run_on_same_workbook'] = 1
                     except Timeout:
                         rk = 'timeout'
                     except Exception as e:
@@ -362,8 +374,9 @@ class C15Machine(Machine):
                                    'run() raised %s: %s' % (rk, err)))
             else:
                 after = snapshot()
-                exp_out = os.path.relpath(out_path, wdir) if out_path else 'experiment_output.xlsx'
-                created = sorted(set(after) - set(before))
+                exp_out = os.path.relpath(out_path, wdir) if out_path else \
+                    os.path.splitext(os.path.basename(in_path))[0] + '_output.xlsx'
+                created = sorted(k for k in set(after) - set(before))
                 changed = sorted(k for k in before if after.get(k) != before[k])
                 if changed:
                     V.append(violation('C15/input-modified', 'files', 'input files changed or removed: %s' % changed))
